@@ -349,6 +349,8 @@ pub mod rt {
         pub root_panic: Option<String>,
         /// per connection: bytes written by [client side, server side]
         pub conn_written: Vec<[Vec<u8>; 2]>,
+        /// per connection: local addresses of [connecting side, accepting side]
+        pub conn_addrs: Vec<[SocketAddr; 2]>,
     }
 
     /// Runs `body` once as thread 0 under a fresh runtime, following `prefix` at the decision
@@ -429,6 +431,7 @@ pub mod rt {
             trace_hash: g.trace_hash,
             root_panic,
             conn_written: g.conns.iter_mut().map(|c| [std::mem::take(&mut c.written[0]), std::mem::take(&mut c.written[1])]).collect(),
+            conn_addrs: g.conns.iter().map(|c| c.addr).collect(),
         }
     }
 
